@@ -205,7 +205,7 @@ def gen_engine(
         spec["route"] = rnd.choice(ROUTES)
         if spec["route"] in ("fll", "python", "rule-create-with-engine") and any(r.get("broken") for rb in spec["blocks"] for r in rb["rules"]):
             spec["route"] = "constructors"  # the text forms and Rule.create(text, engine) refuse the rule outright
-        if spec["route"] in ("fll", "python", "copy", "deepcopy") and any("same_rules_as" in rb or any("same_rule_as" in r for r in rb["rules"]) for rb in spec["blocks"]):
+        if spec["route"] in ("fll", "python", "copy", "deepcopy", "copy-as-is", "deepcopy-as-is") and any("same_rules_as" in rb or any("same_rule_as" in r for r in rb["rules"]) for rb in spec["blocks"]):
             spec["route"] = "constructors"  # sharing of rule objects does not survive the text forms (and copies are C13's business)
         if spec["route"] == "engine-configure" and not uniform(rnd, spec):
             spec["route"] = "constructors"
@@ -240,7 +240,7 @@ def build_defuzzifier(fl, dz):
     return getattr(fl, dz["cls"])(dz["resolution"]) if "resolution" in dz else getattr(fl, dz["cls"])(dz["type"])
 
 
-ROUTES = ["constructors", "constructors", "factories", "fll", "python", "configure", "copy", "rule-create-with-engine", "engine-configure", "deepcopy"]
+ROUTES = ["constructors", "constructors", "factories", "fll", "python", "configure", "copy", "rule-create-with-engine", "engine-configure", "deepcopy", "copy-as-is", "deepcopy-as-is"]
 
 
 def uniform(rnd, spec):
@@ -291,6 +291,13 @@ def build(fl, spec, route=None):
     elif route == "deepcopy":
         e = copy.deepcopy(e)
         _quietly(e.restart, spec)
+    elif route in ("copy-as-is", "deepcopy-as-is"):
+        # a copy of a freshly built engine, used as it comes (no restart, no reload): it is a fresh engine of its own, whatever
+        # becomes of the engine it was copied from (which is given other input values, then dropped)
+        source = e
+        e = source.copy() if route == "copy-as-is" else copy.deepcopy(source)
+        for k, v in enumerate(source.input_variables):
+            v.value = 0.123 + k
     return e
 
 
